@@ -7,7 +7,7 @@ from __future__ import annotations
 import ast
 from typing import List, Optional
 
-from fsa.match import has_fact, is_call, kwarg
+from fsa.match import has_fact, is_call, is_const, kwarg, method_call
 from fsa.source import Unsupported, text
 from rules.common import Fn
 
@@ -53,12 +53,121 @@ class TermMatch:
                     continue
             if is_call(v, 'Term'):
                 self.ret, self.term = r, v
+        # a return that is not the Term built here: a look-up in a memo table that the function fills itself is read (is its
+        # key complete?); anything else is a way of producing terms that the rules do not see
+        self.memo = []
+        for r in f.returns():
+            v = r.ast.value
+            vals = [(r.id, v)] if not isinstance(v, ast.Name) else f.lf.values_reaching(r.id, v.id)
+            for (s_, dv) in vals:
+                if dv is not None and is_call(dv, 'Term'):
+                    continue
+                self.memo.append(self._memo(s_, dv, r))
         if self.term is None:
             raise Unsupported(f'{Q}: no `return Term(...)`')
         ix = kwarg(self.term, 'index_') or (self.term.args[2] if len(self.term.args) > 2 else None)
         if not isinstance(ix, ast.Name):
             raise Unsupported(f'{Q}: Term(index_=...) is not a local name')
         self.idx = ix.id
+
+    # -- memoised terms -------------------------------------------------------------------------------------------------
+    def _sources(self, nid: int, e: ast.AST, seen: set) -> set:
+        """What the value of `e` at node `nid` is computed from: 'lastgroup' (which alternative of the pattern matched),
+        'whole' (the matched text), 'groups' (texts of groups), other free names, 'opaque:<name>' for values not read."""
+        from fsa.flow import PARAM
+        f, m = self.f, self.m
+        out: set = set()
+        skip: set = set()
+        bound = {y.id for c in ast.walk(e) if isinstance(c, ast.comprehension) for y in ast.walk(c.target) if isinstance(y, ast.Name)}
+        for x in ast.walk(e):
+            if id(x) in skip:
+                continue
+            if isinstance(x, (ast.ListComp, ast.GeneratorExp, ast.SetComp)) and len(x.generators) == 1 and method_call(x.generators[0].iter, 'items') \
+                    and any(isinstance(c, ast.Compare) and isinstance(c.ops[0], ast.IsNot) and is_const(c.comparators[0], None) for i_ in x.generators[0].ifs for c in ast.walk(i_)):
+                # the names of the groups that took part in the match: which alternative of the pattern matched
+                src = self._sources(nid, x.generators[0].iter.func.value, set())
+                if 'groups' in src:
+                    out.add('alt')
+            if isinstance(x, ast.Name) and x.id in bound:
+                continue
+            if isinstance(x, ast.Attribute) and isinstance(x.value, ast.Name) and x.value.id == m and x.attr == 'lastgroup':
+                out.add('alt')
+                skip.add(id(x.value))
+            elif isinstance(x, ast.Call) and isinstance(x.func, ast.Attribute) and isinstance(x.func.value, ast.Name) and x.func.value.id == m:
+                skip.add(id(x.func.value))
+                if x.func.attr == 'group' and (not x.args or (len(x.args) == 1 and isinstance(x.args[0], ast.Constant) and x.args[0].value == 0)):
+                    out.add('whole')
+                elif x.func.attr in ('group', 'groupdict', 'groups'):
+                    out.add('groups')
+                else:
+                    out.add(f'match.{x.func.attr}()')
+            elif isinstance(x, ast.Subscript) and isinstance(x.value, ast.Name) and x.value.id == m:
+                skip.add(id(x.value))
+                out.add('whole' if isinstance(x.slice, ast.Constant) and x.slice.value == 0 else 'groups')
+            elif isinstance(x, ast.Name) and isinstance(x.ctx, ast.Load):
+                if x.id == m:
+                    out.add('match-object')
+                elif x.id in f.lf.locals:
+                    for (s_, dv) in f.lf.values_reaching(nid, x.id):
+                        key = (s_, x.id)
+                        if key in seen:
+                            continue
+                        seen.add(key)
+                        if s_ == PARAM:
+                            out.add(f'param:{x.id}')
+                        elif dv is None:
+                            out.add(f'opaque:{x.id}')
+                        else:
+                            out |= self._sources(s_, dv, seen)
+                            for (a, _tr, _t) in f.guard_atoms(s_):
+                                out |= self._sources(_t.id, a, seen)
+                elif x.id not in ('Term', 'Type', 'int', 'str', 'len', 'None', 'True', 'False', 'Optional', 'isinstance', 'tuple'):
+                    out.add(f'name:{x.id}')
+        return out
+
+    def _memo(self, s_, dv, r):
+        """(verdict, detail, where) for a returned value that is not `Term(...)` built in place."""
+        f = self.f
+        tbl = key = None
+        if dv is not None and isinstance(dv, ast.Call) and isinstance(dv.func, ast.Attribute) and dv.func.attr == 'get' and isinstance(dv.func.value, ast.Name) and dv.args:
+            tbl, key = dv.func.value.id, dv.args[0]
+        elif isinstance(dv, ast.Subscript) and isinstance(dv.value, ast.Name):
+            tbl, key = dv.value.id, dv.slice
+        if tbl is None or tbl in f.lf.locals:
+            return ('unknown', f'`return {text(r.ast.value)[:40]}` hands back a value that is not a Term built from this match (`{text(dv)[:50] if dv is not None else "?"}`)', f.where(r))
+        stores = [n for n in f.cfg.nodes if n.kind == 'stmt' and isinstance(n.ast, ast.Assign) and isinstance(n.ast.targets[0], ast.Subscript)
+                  and text(n.ast.targets[0].value) == tbl]
+        if len(stores) != 1:
+            return ('unknown', f'`{tbl}` is looked up for a ready-made term but is filled at {len(stores)} places in this function', f.where(r))
+        st = stores[0]
+        kread = self._sources(s_ if isinstance(s_, int) and s_ >= 0 else r.id, key, set())
+        kstore = self._sources(st.id, st.ast.targets[0].slice, set())
+        vsrc = self._sources(st.id, st.ast.value, set())
+        if f.etext(st.id, st.ast.targets[0].slice) != f.etext(s_ if isinstance(s_, int) and s_ >= 0 else r.id, key):
+            return ('unknown', f'`{tbl}` is read under `{text(key)[:40]}` and filled under `{text(st.ast.targets[0].slice)[:40]}`', f.where(st))
+        vsrc.discard(f'name:{tbl}')
+        kstore.discard(f'name:{tbl}')
+        need = set(vsrc) - kstore
+        if 'whole' in kstore and ('alt' in kstore or 'alt' not in vsrc):
+            need -= {'groups'}      # the text of the groups is fixed by the matched text once the alternative is
+        if not need:
+            return ('ok', f'terms memoised in `{tbl}`: everything the term is computed from ({sorted(vsrc)}) is fixed by the key ({sorted(kstore)})', f.where(st))
+        if 'alt' in need and 'whole' in kstore and not (need - {'alt', 'groups'}):
+            # is the alternative that matched a function of the matched text alone?  Not when an alternative looks around it.
+            from fsa import rx
+            import re._constants as sc
+            from fsa.consts import folder
+            try:
+                e_ = folder(f.R.repo, P).get('term_re')
+                ctx = any(it[0] in (sc.ASSERT, sc.ASSERT_NOT) for a_ in rx.top_alternatives(rx.parse(e_.pattern, e_.flags)) for it in rx.walk(a_)
+                          if not rx.is_word_boundary(it))
+            except Exception:
+                ctx = None
+            if ctx:
+                return ('bad', f'terms are memoised in `{tbl}` under the matched text alone (`{f.etext(st.id, st.ast.targets[0].slice)[:40]}`), but the term\'s type comes from which alternative of '
+                               f'term_re matched, and that also depends on what follows the text (the look-ahead for `(` that makes a name a function): `exp` in `exp(X)` and the variable '
+                               f'`exp` share one entry, so whichever is parsed first decides the type of the other', f.where(st))
+        return ('unknown', f'terms are memoised in `{tbl}`: whether the key ({sorted(kstore)}) fixes everything the term is computed from ({sorted(vsrc)}) is not decided', f.where(st))
 
     def is_raw(self, nid: int, e: ast.AST) -> bool:
         return self.f.etext(nid, e) in self.raw_forms
